@@ -366,7 +366,7 @@ def fixed():
 
     # bare leaves and arrays
     for n in ["u8", "u16", "u32", "u64", "u128", "i8", "i16", "i32", "i64", "i128", "f32", "f64", "usize"]:
-        z.register(NATIVE[n])
+        z.register(NATIVE[n], msg=(n in ("u8", "u32")))  # one-byte and four-byte sized messages
     z.register(UNIT)
     z.register(BOOL)
     for p in PORT.values():
@@ -382,7 +382,7 @@ def fixed():
     for (a, b, c) in [(1, 2, 4), (4, 2, 1), (1, 8, 2), (16, 1, 2), (2, 16, 1), (1, 4, 16), (8, 1, 8), (1, 1, 2), (2, 1, 1), (4, 1, 8), (1, 16, 1), (8, 4, 2)]:
         z.struct([ap(a), ap(b), ap(c)], tuple_=(a + b) % 3 == 0, comment=f"align triple {a},{b},{c}")
     # repo test shape
-    sized_struct = z.struct([U8, U16, U32, array(U64, 4)], comment="tests/sized_struct")
+    sized_struct = z.struct([U8, U16, U32, array(U64, 4)], comment="tests/sized_struct", msg=True)
     # with constrained leaves
     s_bool = z.struct([U32, BOOL, U16, BOOL], comment="struct with bools")
     s3 = z.struct([array(U8, 3), U16], default=True, comment="odd sized array field")
@@ -391,8 +391,8 @@ def fixed():
     for tag in ["u8", "u16", "u32"]:
         for a in aligns:
             z.enum([("unit", []), ("tuple", [ap(a)]), ("named", [U8, ap(a)])], tag=tag, comment=f"sized enum tag {tag} payload align {a}")
-    sized_enum = z.enum([("unit", []), ("tuple", [U16, U8]), ("named", [U8, U16]), ("tuple", [U32])], comment="tests/sized_enum")
-    c_like = z.enum([("unit", []), ("unit", [])], comment="tests/c_like_enum")
+    sized_enum = z.enum([("unit", []), ("tuple", [U16, U8]), ("named", [U8, U16]), ("tuple", [U32])], comment="tests/sized_enum", msg=True)
+    c_like = z.enum([("unit", []), ("unit", [])], comment="tests/c_like_enum", msg=True)
     c_like3 = z.enum([("unit", []), ("unit", []), ("unit", [])], tag="u16", comment="c-like u16")
     e_bool = z.enum([("unit", []), ("tuple", [BOOL, U32]), ("named", [s_bool])], comment="enum with constrained payloads")
     e_nodefault = z.enum([("tuple", [U16]), ("named", [U8, U8])], default=None, comment="enum without default")
@@ -433,6 +433,14 @@ def fixed():
         z.struct([ap(a), ap(b), flat_vec(ap(c), "u8")], sized=False, comment=f"prefix aligns {a},{b}, tail align {c}")
         z.enum([("unit", []), ("named", [ap(a), ap(b), flat_vec(ap(c), "u8")]), ("tuple", [ap(b), ap(a), ap(c)])], sized=False,
                comment=f"unsized enum, three-field variants aligns {a},{b},{c}")
+    # three and four sized fields in front of the tail, with padding before a *middle* field and middle fields whose
+    # size is not their alignment (arrays, portable scalars, small structs): the running offset is rounded per field
+    odd3, pu32, s_u8u16 = array(U8, 3), PORT["le::U32"], z.struct([U8, U16], comment="size 4, align 2", register=False)
+    for pre in [[U8, U32, U8], [U8, U64, U16], [U16, U8, U32], [U8, odd3, U16], [U16, pu32, U32], [U8, s_u8u16, U64], [U8, U16, U8, U32], [U32, odd3, odd3, U16],
+                [U8, array(U16, 3), U8], [U8, PORT["be::U16"], U16, U8]]:
+        z.struct(pre + [flat_vec(U8, "u8")], sized=False, comment="prefix " + ",".join(t.rust for t in pre))
+        z.enum([("unit", []), ("tuple", pre + [flat_vec(U16, "u8")]), ("named", pre)], sized=False, comment="enum variants with fields " + ",".join(t.rust for t in pre))
+    z.enum([("unit", []), ("tuple", [U8, odd3, U16, U64]), ("named", [U16, pu32, U8, U32])], comment="sized enum, four-field variants with odd-sized middle fields")
     unsized_struct = z.struct([U8, U16, flat_vec(U64, "u32")], sized=False, comment="tests/unsized_struct", msg=True)
     z.struct([U32, flat_vec(U8, "u8")], sized=False, tuple_=True, comment="D3 shape: tail align < struct align", msg=True)
     z.struct([U16, flat_string("u8")], sized=False, comment="string tail", msg=True)
@@ -470,6 +478,11 @@ def fixed():
     z.enum([("unit", []), ("unit", []), ("tuple", [flat_vec(U8, "u16")])], sized=False, default=1, comment="default is the second unit variant")
     z.enum([("unit", []), ("tuple", [U32]), ("unit", []), ("unit", [])], sized=False, default=2, tag="u16", comment="default is a later unit variant, u16 tag")
     z.enum([("unit", []), ("unit", []), ("unit", []), ("tuple", [U8])], default=2, comment="sized enum, default is the third unit variant")
+    # no unit variant and the smallest variant ends off the alignment: MIN_SIZE is DATA_OFFSET + min, rounded up
+    z.enum([("tuple", [U32, flat_vec(U8, "u8")]), ("tuple", [U8, U8, U8])], sized=False, default=None, comment="unsized enum whose smallest variant has 3 bytes, align 4")
+    z.enum([("tuple", [U64, flat_vec(U8, "u8")]), ("named", [U16, U8]), ("tuple", [array(U8, 5)])], sized=False, default=None, tag="u16",
+           comment="unsized enum whose smallest variant has 3 bytes, align 8, u16 tag")
+    z.enum([("tuple", [U16, flat_string("u8")]), ("tuple", [U8])], sized=False, default=None, comment="unsized enum whose smallest variant has 1 byte, align 2")
     inner_n = z.enum([("unit", []), ("tuple", [flat_vec(U16, "u8")])], sized=False, comment="inner unsized enum")
     z.struct([U32, inner_n], sized=False, comment="unsized enum nested as struct tail", msg=True)
     # an unsized enum whose variant tail is itself an unsized enum with variants of different minimal sizes: the inner
@@ -488,6 +501,10 @@ def fixed():
     z.register(flex_vec(unsized_struct, "u16"))
     z.register(flex_vec(test_msg, "u16"), msg=True)
     z.register(flex_vec(flex_vec(U16, "u8"), "u16"))
+    # items without bytes: a slot may be followed by nothing at all
+    z.register(flex_vec(UNIT, "u8"))
+    z.register(flex_vec(array(U16, 0), "u16"))
+    z.register(flex_vec(flat_vec(U8, "u8"), "u8"), msg=True)
 
     # 5b. generic definitions (type and const parameters; the macro cannot take an unsized type parameter as the tail,
     # so tails are containers of a parameter), several instantiations each
